@@ -28,6 +28,11 @@ TNext ==
        [] r.e = "hist" ->
             IF Cardinality({AsSeq(r.stats[i][3]) : i \in 1..Len(r.stats)}) # Cardinality({<<r.stats[i][1], r.stats[i][2]>> : i \in 1..Len(r.stats)})
             THEN Fail("NamesDistinct") ELSE TRUE
+       [] r.e = "conc" ->
+            (* one reporter used by several goroutines at once: the calls received are the calls made, as multisets
+               of stat names (compared by the harness, logged as the two difference counts) *)
+            IF r.received # r.calls THEN Fail("OneCallPerReport:concurrent-callers")
+            ELSE IF r.missing > 0 \/ r.unexpected > 0 THEN Fail("StatName:concurrent-callers") ELSE TRUE
        [] r.e = "caps" ->
             IF ~r.reporting \/ r.tagging THEN Fail("Capabilities") ELSE TRUE
        [] OTHER -> TRUE
